@@ -41,7 +41,7 @@ def build_ctl(run, san=False):
 
 def canon_status(field):
     """rc:<hex of the status line>  ->  rc:word"""
-    rc, _, hx = field.partition(":")
+    rc, _, hx = field.rpartition(":")          # rc may itself be "crash:<signal>"
     if rc == "127":
         return rc + ":multiple" if hx == "-" else rc + ":?"
     line = unhex(hx) or b""
@@ -116,7 +116,8 @@ def alphabet18(P):
 def near_miss():
     """lines that a changed search needle (shorter, longer, other case) would classify differently"""
     return [b"/opt/mysnoopy.so", b"/lib/libsnoopy-extra.so", b"/lib/libsnoopy.s", b"/lib/LIBSNOOPY.SO", b"/lib/libsnoopy.so.1",
-            b"libsnoopy.so", P_MAIN + b".0.0.0"]        # a bare entry without any '/', the path followed by non-blank characters
+            b"libsnoopy.so", P_MAIN + b".0.0.0",        # a bare entry without any '/', the path followed by non-blank characters
+            P_MAIN + b"\r", P_MAIN + b"\x0b", P_MAIN + b"\x0c /lib/b.so", b"\t" + P_MAIN, b"  " + P_MAIN + b" /lib/b.so"]   # CR / VT / FF after the entry, indented entries
 
 
 def adjacent(P):
@@ -176,7 +177,7 @@ def case(P, content, ops):
 
 def outcome(before, field):
     """(file state before, 'rc:after') -> U | R | W:<hex> | B:<why>"""
-    rc, _, after = field.partition(":")
+    rc, _, after = field.rpartition(":")
     if rc not in ("0", "127"):
         return "B"
     if after == before:
@@ -193,11 +194,13 @@ def spec_lines(case_line, impl_line, kinds="EDR"):
     if r[0] != "ok":
         return []
     P, content, ops = f[1], f[2], f[3]
+    if any(not fld.rpartition(":")[0].isdigit() for fld in r[1:]):
+        return []           # snoopyctl crashed / sanitizer report in this case: reported as a fault, no spec line
     st = [content]
     for fld, op in zip(r[1:], ops):
-        st.append(st[-1] if op == "s" else fld.partition(":")[2])
+        st.append(st[-1] if op == "s" else fld.rpartition(":")[2])
     if ops == "ees" and "E" in kinds:
-        return ["\t".join(["specE", P, content, outcome(st[0], r[1]), outcome(st[1], r[2]), r[3].partition(":")[2]])]
+        return ["\t".join(["specE", P, content, outcome(st[0], r[1]), outcome(st[1], r[2]), r[3].rpartition(":")[2]])]
     if ops.startswith("d") and "D" in kinds:
         return ["\t".join(["specD", P, content, outcome(st[0], r[1])])]
     if ops == "ed" and "R" in kinds:
